@@ -227,6 +227,11 @@ def scanner_typestate(f, ptr_pred, rule, R, what, ctype_ok=('isspace', 'isdigit'
             if op == '--':
                 return 'curZ' if (st == 'out' or (isinstance(st, tuple) and st[0] == 'out')) else 'cur?'
             if op == '+=':
+                rhs = ev.get('rhs') or {}
+                if rhs.get('k') == 'callref' and rhs.get('callee') in ('strcspn', 'strspn', 'strlen') and rhs.get('args') and ptr_pred(rhs['args'][0]) \
+                        and (st in ('cur?', 'curNZ', 'curZ')):
+                    # a span measured from the cursor itself ends at or before the terminating NUL
+                    return 'curZ' if rhs['callee'] == 'strlen' else 'cur?'
                 problems.append((s, 'the scan pointer jumps ahead by a computed amount'))
                 return 'cur?'
             return 'cur?'
